@@ -156,11 +156,20 @@ class Interp:
         if name == "final":
             fr = self.final_frames.get(args[0].c if len(args) > 1 else None) or self.final_frames.get(None)
             nm = args[-1].c
+            if fr is not None and nm not in fr.locals and nm in self.path.ghost.get("loop_ghosts", {}):
+                gv_ = self.path.ghost["loop_ghosts"][nm]
+                if type(gv_).__name__ == "VMaybeUnbound":
+                    if getattr(gv_, "last", None) is None or not self.path.known(ops.int_cmp(">=", gv_.count, mkint(1)).term()):
+                        raise Unsupported(f"final({nm!r}): the loop may not have run")
+                    gv_ = gv_.last()
+                    self.path.ghost["loop_ghosts"][nm] = gv_
+                return gv_
             if fr is not None and nm not in fr.locals and self.contracts is not None and self.verifying:
                 # a loop ghost of a loop that was never reached keeps its initial value
                 c_ = self.contracts.contracts.get(self.verifying)
-                for lc_ in (self.contracts.merged_loops(c_).values() if c_ is not None else []):
-                    if nm in lc_.get("ghost_init", {}):
+                reached = self.path.ghost.get("loops_reached", set())
+                for lk_, lc_ in (self.contracts.merged_loops(c_).items() if c_ is not None else []):
+                    if nm in lc_.get("ghost_init", {}) and (c_.target, lk_) not in reached:
                         outer = Frame(c_.module, locals=self.path.ghost.get("entry_locals", {}), func="<spec>")
                         return self.ev(c_.expr(lc_["ghost_init"][nm]), Frame(c_.module, locals=fr.locals, parent=outer, func="<spec>"))
             if fr is None or nm not in fr.locals:
@@ -1380,6 +1389,10 @@ class Interp:
             t = o.meta.get("truth")
             if t is not None:
                 return t
+            if o.meta.get("tag") == "json":
+                # an arbitrary JSON value: falsy exactly when it is empty / zero / null (uninterpreted size)
+                from . import libmodels
+                return VBool(t=libmodels.json_len(self, v).as_int() > 0)
         return TRUE
 
     def eq_ref(self, a, b) -> VBool:
